@@ -18,6 +18,9 @@ CLASSES_ALL = ["ES", "NK", "VX", "ZQ", "ZT", "ZF", "ZN", "ZB"]
 ONE = timedelta(seconds=1)
 
 
+from tradingenv.spaces import DiscretePortfolio
+
+
 def as_dt(x):
     return x.to_pydatetime() if hasattr(x, "to_pydatetime") else x
 
@@ -168,7 +171,7 @@ def roll_setup(name, year, rolls, month=0):
     return chain, start, end
 
 
-def run_roll(name, year, rolls, stride, phase, script, spread, threshold, calendar_days, month=0, fractional=True, late=False, delay=0, feed="events"):
+def run_roll(name, year, rolls, stride, phase, script, spread, threshold, calendar_days, month=0, fractional=True, late=False, delay=0, feed="events", space="box"):
     chain, start, end = roll_setup(name, year, rolls, month)
     days_ = bdays(start, end, calendar_days)[phase::stride]
     # `late`: decisions are taken at 23:30 of the previous day with a latency of one hour, and every contract is re-quoted at
@@ -216,8 +219,13 @@ def run_roll(name, year, rolls, stride, phase, script, spread, threshold, calend
         tr.add_prices(pd.DataFrame({c: pd.Series(v) for c, v in table.items()}).sort_index())
     else:
         tr.add_events(evs)
-    env = TradingEnv(BoxPortfolio([chain], -2.0, 2.0, margin=threshold, fractional=fractional), transmitter=tr, initial_cash=1e7,
-                     latency=3600 if late else 0, steps_delay=delay)
+    DISC_W = [0.0, 0.5, -0.5, 0.52, 0.03, -0.03]
+    if space == "disc":
+        # a discrete menu of chain allocations: the same action index is submitted before and after a roll
+        sp = DiscretePortfolio([chain], [[w_] for w_ in DISC_W])
+    else:
+        sp = BoxPortfolio([chain], -2.0, 2.0, margin=threshold, fractional=fractional)
+    env = TradingEnv(sp, transmitter=tr, initial_cash=1e7, latency=3600 if late else 0, steps_delay=delay)
     try:
         env.reset()
     except Exception as e:
@@ -238,7 +246,7 @@ def run_roll(name, year, rolls, stride, phase, script, spread, threshold, calend
         D = days_[k - 1] + exec_shift      # the simulation time at which the execution takes place
         lead = ref_lead(cs, D, month)
         try:
-            o, r, done, info = env.step(np.array([w_sub]))
+            o, r, done, info = env.step(np.array([w_sub]) if space == "box" else DISC_W.index(w_sub))
         except Exception as e:
             msgs.append("step %d (decision time %s, lead %s) raised %r" % (k, D, lead.symbol if lead else None, e))
             break
@@ -299,6 +307,9 @@ def roll_cases(tier):
                                     out.append((name, year, rolls, stride, phase, script, spread, threshold, calendar_days, 0, False))
                                 if name == "ES" and stride in (1, 2) and spread and threshold == 0.0:
                                     out.append((name, year, rolls, stride, phase, script, spread, threshold, calendar_days, 0, True, True))
+                                if name == "ES" and stride in (1, 3) and spread and threshold == 0.0:
+                                    for delay in (0, 1):      # the chain as the underlying of a DISCRETE action space
+                                        out.append((name, year, rolls, stride, phase, script, spread, threshold, calendar_days, 0, True, False, delay, "events", "disc"))
                                 if name == "ES" and not spread and threshold == 0.0:
                                     out.append((name, year, rolls, stride, phase, script, spread, threshold, calendar_days, 0, True, False, 0, "prices"))
                                 if name == "ES" and stride in (1, 2) and spread and threshold == 0.0:
